@@ -2,6 +2,7 @@ import Req.Driver.Proto
 import Req.H1.Response
 import Req.H1.Conn
 import Req.H1.ErrClass
+import Req.H1.BufAlias
 /-! Driver lanes of C04 (also used by C03).
 
 `c04parse <H|G> <B> <hex stream>` → canonical rendering of `parseResponse`.
@@ -199,7 +200,30 @@ def laneCut : List String → String
     | _, _ => "bad-op"
   | _ => "bad-op"
 
+/-- `c04alias <B> <segments>` (round 5): `readContinuedLineSlice` called until the blank line or
+the first error on a `bufio.Reader` of size `B` whose connection delivers exactly the given
+segments (comma-joined hex, none empty), then EOF — the explicit-array model
+`Req.H1.BufAlias.aheadLines` with the code's guard (`Buffered() > 1`).  Answer: the lines as the
+returned slices read at return time, how the loop ended, the bytes left unread. -/
+def laneAlias : List String → String
+  | [b, segs] =>
+    match b.toNat?, decodeList segs with
+    | some B, some ss =>
+      if B < 16 then "bad-op" else
+      let src : List BufLine.Chunk := ss.map fun d => ⟨d, none⟩
+      let total := (ss.map List.length).foldl (· + ·) 0
+      let (ls, e, a) := BufAlias.aheadLines B 1 (fun l => l.contains 58) (total + 2) (BufAlias.ARd.init B src)
+      let ending := match e with
+        | .ok _ => "blank"
+        | .invalid => "invalid"
+        | .err (.src .eof) => "err:eof"
+        | .err _ => "err:other"
+      "lines=" ++ encodeList ls ++ " end=" ++ ending ++ " rest=" ++ encodeHex a.rd.bytes
+    | _, _ => "bad-op"
+  | _ => "bad-op"
+
 def lanes : List (String × (List String → String)) := [
+  ("c04alias", laneAlias),
   ("c04parse", laneParse),
   ("c04chunk", laneChunk),
   ("c04mime", laneMime),
